@@ -249,7 +249,7 @@ class Effects:
                 continue
             if e.data.get('new') and w.param == g.params()[0][0]:
                 continue     # constructor writing its own fresh object
-            for o in self.owners(func, b[w.param]):
+            for o in self.owners(func, b[w.param], loops=p.state.loops):
                 self._add(s, seen, o, w.how, e.loc(), f'{g.key} ({w.loc})' + (f' via {w.via}' if w.via else ''),
                           list(p.conds), w.detail, w.func)
         for gw in sg.global_writes:
